@@ -25,6 +25,17 @@ def gen_cases(tier, seed):
         c, t = G.expression(r)
         cases.append({"g": "grammar/" + c.split("/")[0], "t": t, "ts": r.choice(["2021-03-10T12:43:30", "2020-02-29T23:59:59", "2019-12-31T08:00:00", "2024-02-28T23:10:00"]),
                       "o": {"latent_time": True, "max_stack_depth": r.choice([10, 10, 0]), "relative_match_len": 1.0, "scorer": "shipped", "debug": False}})
+    # part of day x day x clock range in the three orders: one end of the range may be moved into the afternoon and the
+    # other not ("last 19. 8-3": found by the soup in a thorough run, now a family of its own)
+    pods = ["last", "evening", "abends", "afternoon", "night", "nachmittags", "late evening", "nachts", "tonight", "first", "morning", "am abend"]
+    days = ["19.", "friday", "tomorrow", "am 19.", "19.11.2024", "on the 19th", "", "freitag", "31.", "on march 5th"]
+    rngs = ["8-3", "8-15", "11-2", "9-5", "8 bis 3", "from 8 to 3", "10:30-1", "12-1", "7 - 11:30", "von 8 bis 15 uhr", "1-12", "8pm-3"]
+    combos = [(a, b, c_, k) for a in pods for b in days for c_ in rngs for k in (0, 1, 2)]
+    r.shuffle(combos)
+    for a, b, c_, k in (combos if tier == "thorough" else combos[:700]):
+        t = " ".join((("%s %s %s", "%s %s %s", "%s %s %s")[k] % ((a, b, c_), (b, a, c_), (b, c_, a))[k]).split())
+        cases.append({"g": "podday-range", "t": t, "ts": r.choice(["2021-03-10T12:43:30", "2020-02-29T23:59:59", "2019-12-31T08:00:00", "2024-11-04T09:30:59"]),
+                      "o": {"latent_time": True, "max_stack_depth": r.choice([10, 0]), "relative_match_len": r.choice([1.0, 0.8]), "scorer": "shipped", "debug": False}})
     return cases
 
 
